@@ -291,4 +291,45 @@ def driftRound (s : State) (replicas : Int) (limit : Option Int) (budget : Nat) 
 def live (w : World) : Nat := count (fun c => !c.apiDeleting) w.claims
 def deleting (w : World) : Nat := count (·.apiDeleting) w.claims
 
+/-! ### The static pool next to the pod-driven provisioner
+
+`nodepoolutils.IsStatic` is `np.Spec.Replicas != nil` (regenerated: `Karp.Gen.C03Pool.isStaticExpr`);
+`Provisioner.NewScheduler` drops every NodePool for which it holds before it builds the NodeClaim templates, so the
+solver can open NodeClaims only in the pools that are left; `IsStaticPredicateFuncs` and
+`NodeClaimEventHandler(WithStaticOnly)` route by the same test. -/
+
+/-- `nodepoolutils.IsStatic` -/
+def isStatic (replicas : Option Int) : Bool :=
+  match replicas with
+  | some _ => true
+  | none => false
+
+structure PoolDecl where
+  name : Name
+  replicas : Option Int
+deriving Repr
+
+/-- the NodePools `NewScheduler` keeps -/
+def offered (pools : List PoolDecl) : List PoolDecl := pools.filter (fun p => !isStatic p.replicas)
+
+/-- a pod-driven pass: whatever pools the solver would like to open NodeClaims in (`choice`, one entry per NodeClaim), it
+    has templates only for the offered ones -/
+def podPassOpens (pools : List PoolDecl) (choice : List Name) : List Name :=
+  choice.filter (fun n => (offered pools).any (·.name == n))
+
+def addedTo (p : Name) (opened : List Name) : Nat := (opened.filter (· == p)).length
+
+/-- the pass seen from the static pool `np`: nothing changes but the sync flag (`Cluster.Synced` was true) -/
+def podPass (w : World) (ran : Bool) : World := if ran then { w with hasSynced := true } else w
+
+/-- `Provisioner.Reconcile` runs the pass only when `Cluster.Synced`: no NodeClaim known to the state is unlaunched -/
+def podPassRuns (w : World) (otherUnlaunched : Nat) : Bool :=
+  !(w.claims.any (fun c => !c.launched)) && otherUnlaunched == 0
+
+/-- what the static watches let through: (IsStatic, Create, Update, Delete, Generic, requests of a NodeClaim event for
+    the static controllers, requests of the plain NodeClaim handler) -/
+def route (replicas : Option Int) (claimLabelled claimOfPool : Bool) : Bool × Bool × Bool × Bool × Bool × Nat × Nat :=
+  let s := isStatic replicas
+  (s, s, s, s, s, if s && claimOfPool then 1 else 0, if claimLabelled then 1 else 0)
+
 end Karp.StaticPool
